@@ -272,6 +272,14 @@ fn exec(base: Base, binds: bool, seq: &[Atk], render: bool) -> RunOutput {
                             cx.wit |= W_RESET_REPLY;
                         }
                     }
+                    RFrame::Push { .. } | RFrame::Acknowledge { .. } if before.as_ref().is_some_and(|b| b.kind == 2) => {
+                        // a bind request is settled by Finish (honoured) or Reset (refused) only; any other frame on its
+                        // id (a stray one of an older flow that used the id, for instance) must leave it pending
+                        let now = cx.digest_of(id);
+                        if now != before {
+                            pv(&mut cx.viol, "bindrequest.settled-by-stray-frame", format!("{}: the pending bind request on flow {id} changed from {before:?} to {now:?}; only Finish or Reset answer a Bind", atk_str(a)));
+                        }
+                    }
                     RFrame::Connect { .. } if id == 0 || before.is_some() => {
                         // R5: Connect with id 0 or an id in use => Reset, existing flow untouched
                         if resets_on(&got, id) != 1 || got.len() != 1 {
